@@ -87,6 +87,16 @@ fn make_scratch_parent() -> PathBuf {
     let p = sys::scratch_base().join(format!("fusim-{}", std::process::id()));
     let _ = fs::create_dir_all(&p);
     let _ = fs::set_permissions(&p, fs::Permissions::from_mode(0o777));
+    // (a process that drops its privileges must still be able to remove its own directory from
+    // the sticky /dev/shm at the end)
+    if sys::is_root() {
+        use std::os::unix::ffi::OsStrExt;
+        if let Ok(c) = std::ffi::CString::new(p.as_os_str().as_bytes()) {
+            unsafe {
+                libc::chown(c.as_ptr(), 65534, 65534);
+            }
+        }
+    }
     let src = simchild_src();
     if src.exists() {
         let dst = p.join("simchild");
